@@ -62,6 +62,36 @@ int main()
             std::printf("a=%04x b=%04x\n", crc_of(m), crc_of(x));
         } else if (t.size() == 2 && t[0] == "classes") {
             classes(vh::from_hex(t[1]));
+        } else if (!t.empty() && t[0] == "seq") {
+            // one engine object, operations in order: R reset, G get, B get_bytes, xx feed byte
+            crc_t c;
+            std::string out = "seq";
+            char buf[32];
+            for (size_t i = 1; i != t.size(); ++i) {
+                if (t[i] == "R") c.reset();
+                else if (t[i] == "G") { std::snprintf(buf, sizeof buf, " g=%04x", c.get()); out += buf; }
+                else if (t[i] == "B") { auto gb = c.get_bytes(); out += " b=" + vh::to_hex(gb); }
+                else c(uint8_t(std::stoul(t[i], nullptr, 16)));
+            }
+            std::printf("%s\n", out.c_str());
+        } else if (t.size() == 2 && t[0] == "sweep") {
+            // crc(byte, reg) for every 16-bit register value; print a digest-friendly dump
+            uint8_t byte = uint8_t(std::stoul(t[1], nullptr, 16));
+            std::string all; all.reserve(270000);
+            char buf[8];
+            crc_t c;
+            for (unsigned r = 0; r != 65536; ++r) { std::snprintf(buf, sizeof buf, "%04x", c.crc(byte, uint16_t(r))); all += buf; }
+            std::printf("SWEEP %s\n", all.c_str());
+        } else if (t.size() == 2 && t[0] == "all3") {
+            // CRC of every 3-byte message [b0, b1, BYTE]: reaches every register value at a byte boundary
+            uint8_t byte = uint8_t(std::stoul(t[1], nullptr, 16));
+            std::string all; all.reserve(270000);
+            char buf[8];
+            for (unsigned m = 0; m != 65536; ++m) {
+                std::vector<uint8_t> msg{uint8_t(m >> 8), uint8_t(m & 255), byte};
+                std::snprintf(buf, sizeof buf, "%04x", crc_of(msg)); all += buf;
+            }
+            std::printf("ALL3 %s\n", all.c_str());
         } else std::printf("?\n");
     }
     return 0;
